@@ -106,9 +106,9 @@ MKeyShapes == { <<"k0">>, <<"k0", "k1">>, <<"k0", "k1", "k2">>, <<"k0", "k1", "k
                 <<"k0", "k1", "k2", "k0", "k1", "k2">> }
 MergeDeep == {Wrap(n, w) : n \in MLeafs, w \in MKeyShapes}
 
-(* documents for the carrier property (C16): every string atom y0..y42 (concretised by the yaml-hostile *)
+(* documents for the carrier property (C16): every string atom y0..y47 (concretised by the yaml-hostile *)
 (* table) as root, array member, object value and object key; numbers; empty containers               *)
-YAtoms == {"y" \o ToString(i) : i \in 0..42}
+YAtoms == {"y" \o ToString(i) : i \in 0..47}
 YamlDocs ==
   UNION { {Str(y), Arr(<<Str(y), N1>>), O1("k0", Str(y)), Obj([j \in {y} |-> N1]), Arr(<<N1, Str(y)>>),
            Obj([j \in {"k0", y} |-> IF j = "k0" THEN Arr(<<Str(y)>>) ELSE Str(y)]),
@@ -158,6 +158,10 @@ Wide == {Obj(WideBase), Obj(FnWith(WideBase, "c7", N2)), Obj(FnWith(WideBase, "c
          Obj(FnWith(WideBase, "c5", Arr(<<N1, N2>>))), O1("k0", Obj(WideBase)), O1("k0", Obj(FnWith(WideBase, "c7", N2))),
          Arr(<<Obj(WideBase)>>), Arr(<<Obj(FnWith(WideBase, "c9", N2))>>)}
 
+(* one pair beyond thresholds in the thousands: 2100 elements, two replacements 2080 positions apart *)
+HugeBase == [i \in 1..2100 |-> Num(8 * (1 + (i % 7)))]
+Huge == {Arr(HugeBase), Arr(SeqReplace(SeqReplace(HugeBase, 11, N9), 2091, N9)), Arr(SeqReplace(HugeBase, 1050, N9))}
+
 (* type-confusable values for the equality oracle (C04) *)
 Confusable ==
   { Void, Null, Str(""), EmptyArr, EmptyObj, Num(0), Bool(FALSE), Bool(TRUE), Str("s0"),
@@ -203,4 +207,5 @@ Perms(n) == IF IsArr(n) /\ Len(n.v) <= 4 THEN {Arr(t) : t \in {u \in [DOMAIN n.v
 
 Entry(n) == [d |-> n, nf |-> NullFree(n), p |-> SetToSeq(Perturb(n) \ {n}), q |-> SetToSeq(Perms(n) \ {n})]
 Export(S) == [i \in 1..Cardinality(S) |-> Entry(SetToSeq(S)[i])]
+ExportPlain(S) == [i \in 1..Cardinality(S) |-> [d |-> SetToSeq(S)[i], nf |-> NullFree(SetToSeq(S)[i]), p |-> <<>>, q |-> <<>>]]   \* no perturbations (huge documents)
 =============================================================================
